@@ -22,11 +22,11 @@ pub enum Error {
 }
 pub type Result<T> = core::result::Result<T, Box<Error>>;
 
-// G1: one opaque numeric type stands for all ten instantiations: the proofs below use `T`
-// only through the contract of `do_match`, so nothing type-specific is used.
-#[verifier::external_body]
-#[derive(Clone, Copy)]
-pub struct T { _p: u8 }
+// G1: the generic parameter is instantiated with i64.  `contains` below stays uninterpreted and
+// `do_match` is used through its contract only, so nothing in these proofs depends on which of the
+// ten numeric types T is; a concrete type is used (rather than an opaque one) so that edits which
+// compare counts directly (`==`, `<`) still type-check and are decided instead of being "undecided".
+pub type T = i64;
 
 // T1: copied verbatim from ranges.rs (derive list rewritten)
 //@@ range_enum
